@@ -248,6 +248,26 @@ fn oracle(case: &Case, obs: &mut Obs) -> Result<(), Fail> {
 	let wrong = Arc::new(std::sync::atomic::AtomicU64::new(0));
 	let done = Arc::new(std::sync::atomic::AtomicU64::new(0));
 
+	// A reader that blocks all its callers for good (a lock cycle) cannot be told from a slow one
+	// by this check; it is not waited for an hour either: no completed call for 180 s ends the run
+	// as a machinery problem (exit 2) that names the suspicion.
+	let finished = Arc::new(std::sync::atomic::AtomicBool::new(false));
+	{
+		let (done, finished, total_planned) = (done.clone(), finished.clone(), plans.iter().map(|p| p.len() as u64).sum::<u64>());
+		let what = format!("{:?} callers={} mode={:?}", match &case.subject { Subject::Raw { .. } => "raw file".to_string(), Subject::RawBig { .. } => "large raw file".to_string(), Subject::Container(l) => l.label() }, callers, case.mode);
+		std::thread::spawn(move || {
+			let mut last = (0u64, std::time::Instant::now());
+			while !finished.load(std::sync::atomic::Ordering::Relaxed) {
+				std::thread::sleep(std::time::Duration::from_millis(500));
+				let d = done.load(std::sync::atomic::Ordering::Relaxed);
+				if d != last.0 {
+					last = (d, std::time::Instant::now());
+				} else if d < total_planned && last.1.elapsed() > std::time::Duration::from_secs(180) {
+					vt::engine::die(&format!("C13: no call completed for 180 s ({d} of {total_planned} done; {what}): the callers block each other for good or the machine is stalled; not a verdict"));
+				}
+			}
+		});
+	}
 	let result = vt::guard(|| match case.mode {
 		Mode::Threads => {
 			let barrier = Arc::new(std::sync::Barrier::new(callers));
@@ -309,6 +329,7 @@ fn oracle(case: &Case, obs: &mut Obs) -> Result<(), Fail> {
 			})
 		}
 	});
+	finished.store(true, std::sync::atomic::Ordering::Relaxed);
 	match result {
 		Ok(Ok(())) => {}
 		Ok(Err(())) => return Err(Fail::new("concurrent:caller-panicked", "a caller panicked during concurrent reads")),
